@@ -49,10 +49,10 @@ _add(PropertySpec(
 DSM = "superrec2.utils.disjoint_set"
 _add(PropertySpec(
     "C20", files=["subsequences", "disjoint_set"],
-    targets=[f"{DSM}:DisjointSet.__init__", f"{DSM}:DisjointSet.find", f"{DSM}:DisjointSet.unite", f"{DSM}:DisjointSet.__len__"],
+    targets=[f"{DSM}:DisjointSet.__init__", f"{DSM}:DisjointSet.find", f"{DSM}:DisjointSet.unite", f"{DSM}:DisjointSet.__len__", f"{DSM}:DisjointSet.to_list"],
     level="proof", standins=["trees:triples-and-supertrees", "disjoint_set:partition-and-coarsenings"],
-    technique="contract-based deductive verification of the union-find core (ghost representative map); triples / supertrees / to_list / binary(): bounded stand-in",
-    not_decided=["tree_to_triples, tree_from_triples, all_trees_from_triples, supertree, DisjointSet.to_list / binary / group count = number of classes: bounded stand-in only (ete3-bound code, set.pop order, cardinalities)"],
+    technique="contract-based deductive verification of the union-find core and of to_list (ghost representative map); triples / supertrees / binary(): bounded stand-in",
+    not_decided=["tree_to_triples, tree_from_triples, all_trees_from_triples, supertree, DisjointSet.binary / group count = number of classes: bounded stand-in only (ete3-bound code, set.pop order, cardinalities, deepcopy recursion)"],
 ))
 
 TS = "superrec2.utils.toposort"
